@@ -210,36 +210,57 @@ fn enumerate(seed: u64, shard: u64, shards: u64) -> Tally {
                 if idx % shards != shard {
                     continue;
                 }
-                let Some(mut case) = class_case(seed, "enum", ci as u64 * 2 + (carrier == Carrier::Query) as u64, si as u64, ci, carrier) else {
-                    t.count("class_inapplicable");
-                    continue;
-                };
-                // the request was signed with its own secret: give every script that secret
-                let own = match &case.script.answer {
-                    Answer::Derive {
-                        secret,
-                    } => secret.clone(),
-                    _ => String::new(),
-                };
-                let mut s = script.clone();
-                match &mut s.answer {
-                    Answer::Derive {
-                        secret,
-                    } => {
-                        if sname.ends_with("right-key") {
-                            *secret = own.clone();
-                        } else {
-                            *secret = format!("{}x", &own[..own.len().min(39)]);
-                            if *secret == own {
-                                *secret = "otherSecret".into();
+                // A generated request on which the reference model is silent (for example a wrong signature that
+                // happens to be spelled in upper case) decides nothing: draw another request of the same class so
+                // that every (class, carrier, script) combination is decided.
+                let mut attempt = 0u64;
+                let (case, rec) = loop {
+                    let Some(mut case) = class_case(seed, "enum", ci as u64 * 2 + (carrier == Carrier::Query) as u64, si as u64 + attempt * 1_000_003, ci, carrier) else {
+                        t.count("class_inapplicable");
+                        attempt += 1;
+                        if attempt >= 8 {
+                            break None;
+                        }
+                        continue;
+                    };
+                    // the request was signed with its own secret: give every script that secret
+                    let own = match &case.script.answer {
+                        Answer::Derive {
+                            secret,
+                        } => secret.clone(),
+                        _ => String::new(),
+                    };
+                    let mut s = script.clone();
+                    match &mut s.answer {
+                        Answer::Derive {
+                            secret,
+                        } => {
+                            if sname.ends_with("right-key") {
+                                *secret = own.clone();
+                            } else {
+                                *secret = format!("{}x", &own[..own.len().min(39)]);
+                                if *secret == own {
+                                    *secret = "otherSecret".into();
+                                }
                             }
                         }
+                        _ => {}
                     }
-                    _ => {}
+                    case.script = s;
+                    let rec = execute(&case);
+                    t.eval();
+                    let undecided = matches!(rec.outcome, Outcome::NotBuilt(_)) || matches!(judge(&case, &rec).map(|j| j.agreement), Some(Agreement::Silent(_)));
+                    if undecided && attempt < 7 {
+                        t.count("redrawn_undecided");
+                        attempt += 1;
+                        continue;
+                    }
+                    break Some((case, rec));
                 }
-                case.script = s;
-                let rec = execute(&case);
-                t.eval();
+                .unzip();
+                let (Some(case), Some(rec)) = (case, rec) else {
+                    continue;
+                };
                 if matches!(rec.outcome, Outcome::NotBuilt(_)) {
                     t.count("not_built_by_http");
                     continue;
